@@ -44,7 +44,6 @@ ASSUMPTIONS = [
 ]
 
 _STATE = {}
-NA_E = {}
 
 
 def env():
@@ -397,12 +396,6 @@ def build_compound(E, c):
     if route == "dict-kw":
         return dict((a, n) for a, n in pairs), {key: v}, pairs, rho, text
     raise ValueError(route)
-
-
-def wl_kw(wl):
-    if wl is None:
-        return {}
-    return {wl[0]: wl[1]}
 
 
 def lib_kw(E, wl):
